@@ -147,10 +147,16 @@ func (w *World) observeServer() {
 	w.Srv.On("flush", func(a ...any) {
 		s := a[0].(engine.Socket)
 		w.rec.Log("srv.flush", "sid", s.Id(), "batch", w.batch(a[1].([]*packet.Packet)))
+		if h := w.hooks["srv.flush"]; h != nil {
+			h(s.Id())
+		}
 	})
 	w.Srv.On("drain", func(a ...any) {
 		s := a[0].(engine.Socket)
 		w.rec.Log("srv.drain", "sid", s.Id())
+		if h := w.hooks["srv.drain"]; h != nil {
+			h(s.Id())
+		}
 	})
 	w.Srv.On("initial_headers", func(a ...any) {
 		w.rec.Log("srv.initial_headers", "rid", w.ridOf(a[1].(*types.HttpContext)))
@@ -1092,6 +1098,9 @@ func (c *WSClient) SendRaw(mt int, data []byte) error {
 	defer c.wmu.Unlock()
 	if c.conn != nil {
 		return c.conn.WriteMessage(mt, data)
+	}
+	if c.wt == nil {
+		return net.ErrClosed // the dial was refused
 	}
 	t := webtrans.TextMessage
 	if mt == websocket.BinaryMessage {
